@@ -393,3 +393,95 @@ Definition docflags_eqb (a b : docflags) : bool :=
   let '(a1, a2, a3) := a in let '(b1, b2, b3) := b in Bool.eqb a1 b1 && Bool.eqb a2 b2 && Bool.eqb a3 b3.
 
 Definition member_eqb (a b : string * docflags) : bool := String.eqb (fst a) (fst b) && docflags_eqb (snd a) (snd b).
+
+(* ------------------------------------------------------------------------------------------- *)
+(* processors.py again, now over the WHOLE record of SymPy's global switches                     *)
+(* (global_parameters.evaluate, .distribute, .exp_is_pow, ...).  Which fields each function       *)
+(* writes, and with which constant, is read from the AST of core/processors.py by the check       *)
+(* (`_old_evaluation` is resolved to its module-level constant; a `global` declaration makes the  *)
+(* translator refuse).                                                                            *)
+(* ------------------------------------------------------------------------------------------- *)
+From Coq Require Import NArith.
+
+Definition switches : Type := list (N * bool).               (* field id -> value *)
+Definition writes : Type := list (N * bool).                 (* assignments global_parameters.<field> = <const>, in order *)
+
+Record procs : Type := mkProcs { w_disable : writes; w_enable : writes; w_reset : writes }.
+
+Fixpoint sw_get (f : N) (s : switches) : option bool :=
+  match s with
+  | [] => None
+  | (g, v) :: r => if N.eqb f g then Some v else sw_get f r
+  end.
+
+Fixpoint sw_set (f : N) (v : bool) (s : switches) : switches :=
+  match s with
+  | [] => [(f, v)]
+  | (g, w) :: r => if N.eqb f g then (f, v) :: r else (g, w) :: sw_set f v r
+  end.
+
+Definition apply_writes (ws : writes) (s : switches) : switches :=
+  fold_left (fun acc w => sw_set (fst w) (snd w) acc) ws s.
+
+Definition sw_op (P : procs) (s : switches) (o : flag_op) : switches :=
+  match o with
+  | OpDisable => apply_writes (w_disable P) s
+  | OpEnable => apply_writes (w_enable P) s
+  | OpReset => apply_writes (w_reset P) s
+  end.
+
+Definition sw_ops (P : procs) (s : switches) (l : list flag_op) : switches := fold_left (sw_op P) l s.
+
+(* records observed after each call *)
+Fixpoint sw_ops_trace (P : procs) (s : switches) (l : list flag_op) : list switches :=
+  match l with
+  | [] => []
+  | o :: r => let s' := sw_op P s o in s' :: sw_ops_trace P s' r
+  end.
+
+Definition sw_pstmt (P : procs) (s : switches) (x : pstmt) : switches :=
+  match x with
+  | PDisable => sw_op P s OpDisable
+  | PReset => sw_op P s OpReset
+  | PImport | POrig _ _ => s
+  end.
+
+Definition sw_run (P : procs) (s : switches) (l : list pstmt) : switches := fold_left (sw_pstmt P) l s.
+
+Definition sw_pages (P : procs) (s : switches) (mods : list (list stmt)) : switches :=
+  fold_left (fun acc m => sw_run P acc (patch m)) mods s.
+
+(* value the last write of ws gives to field f *)
+Fixpoint last_write (f : N) (ws : writes) (acc : option bool) : option bool :=
+  match ws with
+  | [] => acc
+  | (g, v) :: r => last_write f r (if N.eqb f g then Some v else acc)
+  end.
+
+Definition opt_bool_eqb (a b : option bool) : bool :=
+  match a, b with
+  | Some x, Some y => Bool.eqb x y
+  | None, None => true
+  | _, _ => false
+  end.
+
+(* every field that any of the three functions writes is written by reset, and reset gives it its default *)
+Definition covers (P : procs) (s0 : switches) : bool :=
+  forallb (fun w : N * bool =>
+             match last_write (fst w) (w_reset P) None with
+             | Some v => opt_bool_eqb (sw_get (fst w) s0) (Some v)
+             | None => false
+             end)
+          (w_disable P ++ w_enable P ++ w_reset P).
+
+(* the fields that reset fails to bring back (for the report) *)
+Definition uncovered (P : procs) (s0 : switches) : list N :=
+  map fst (filter (fun w : N * bool =>
+             negb match last_write (fst w) (w_reset P) None with
+                  | Some v => opt_bool_eqb (sw_get (fst w) s0) (Some v)
+                  | None => false
+                  end)
+          (w_disable P ++ w_enable P ++ w_reset P)).
+
+Definition sw_eqb (a b : switches) : bool :=
+  list_eqb (fun x y : N * bool => N.eqb (fst x) (fst y) && Bool.eqb (snd x) (snd y)) a b.
